@@ -22,6 +22,9 @@ KNOWN_FILE = VERIF / "known_findings.json"
 _KNOWN_RUNTIME: dict = {}   # (property, finding id) -> what the witness run observed in this run
 
 
+_T0 = time.time()
+
+
 class EnoughEvidence(BaseException):
     """raised to end a run early when the code under test has been seen to hang many times: the violations found so far are reported"""
 
@@ -65,6 +68,11 @@ class Stream:
     def fail(self, what: str, case: Any, detail: str = "") -> None:
         if len(self.failures) < 50:
             self.failures.append(Failure(self.name, what, case, detail[:2000]))
+        # a change that makes (nearly) every case fail can also make every case slow (state that grows from call to call): the run then ends with
+        # what it has instead of running into the time limit - only ever reached when violations have been recorded
+        self.nfail = getattr(self, "nfail", 0) + 1
+        if self.nfail >= 400 or (self.nfail >= 20 and time.time() - _T0 > 240):
+            raise EnoughEvidence(f"{self.nfail} failing cases in stream '{self.name}'; ending the run with the violations recorded so far")
 
 
 @dataclass
